@@ -808,6 +808,35 @@ def r7(ctx, facts):
                    "so a frame with stream id -2 (9 bytes: 84 00 ff fe 02 00 00 00 00) panics the connection's reader task instead of being ignored or refused", lk.span)
 
 
+def r12(ctx, facts):
+    """termination of the custom-type-name parser: get_type_parameters calls do_parse until it sees `)` / end of input / an
+    error. A do_parse that answers Ok WITHOUT having consumed anything (the type it returns is a constant, not one looked up
+    from a parsed name) is only harmless at the end of the input; anywhere else the parameter loop gets the same answer for
+    ever (seed C08-j)."""
+    from ..util import dj_of, in_set, backward_slice
+    r = ctx.rule("R12", "custom type parser makes progress: do_parse returns a type it did not parse (the blob default) only at the end of the input", floor=1)
+    b = facts.one(r"^scylla_cql::frame::response::custom_type_parser::CustomTypeParser::<'result>::do_parse$")
+    dj = dj_of(b, facts)
+    eofs = [bb for bb, c in b.calls() if bb in b.live_blocks and (c.name or c.decl or "").endswith("::is_at_eof")]
+    n = 0
+    for bb in sorted(b.live_blocks):
+        for st in b.stmts(bb):
+            if not (st[0] == "A" and st[1][0] == 0 and not st[1][1] and st[2][0] == "agg" and st[2][1][0] == "adt"
+                    and st[2][1][1] == "core::result::Result" and st[2][1][2] == "Ok"):
+                continue
+            calls = backward_slice(b, st[2][2][0])[1] if st[2][2] and st[2][2][0][0] in ("c", "m") else []
+            if any((c.name or c.decl or "").split("::")[-1] in ("get_simple_abstract_type", "get_complex_abstract_type") for c in calls):
+                continue
+            n += 1
+            states = dj.states_at(bb)
+            bad = [s_ for s_ in states if not any(in_set(s_.get(("call", e)), {1}) for e in eofs)]
+            r.instance("default-type-only-at-eof#%d" % n, bool(states) and not bad,
+                       "do_parse returns Ok with a type that does not come from a parsed name in a state where `is_at_eof()` is not known to hold: "
+                       "nothing was consumed, so the loop collecting type parameters never ends on such input", b.stmt_span(st))
+    if n == 0:
+        r.instance("no-default-type", True, "do_parse builds no Ok value of its own", b.span, nontrivial=False)
+
+
 def check(ctx):
     facts = ctx.facts("default")
     try:
@@ -820,7 +849,7 @@ def check(ctx):
     for p, n in per.items():
         anc.instance("entry:" + p, n > 0, "%d bodies match" % n, nontrivial=False)
     ctx.extra["decode_reachable_bodies"] = len(pred)
-    for fn in (lambda: r1(ctx, facts, cg, pred), lambda: r2(ctx, facts), lambda: r3(ctx, facts, cg, pred), lambda: r4(ctx, facts, cg, pred), lambda: r5(ctx, facts), lambda: r6(ctx, facts), lambda: r7(ctx, inline_view_(facts)), lambda: r8(ctx, facts, pred), lambda: r11_guard(ctx)):
+    for fn in (lambda: r1(ctx, facts, cg, pred), lambda: r2(ctx, facts), lambda: r3(ctx, facts, cg, pred), lambda: r4(ctx, facts, cg, pred), lambda: r5(ctx, facts), lambda: r6(ctx, facts), lambda: r7(ctx, inline_view_(facts)), lambda: r8(ctx, facts, pred), lambda: r11_guard(ctx), lambda: r12(ctx, inline_view_(facts))):
         try:
             fn()
         except AnchorLost as ex:
